@@ -376,6 +376,10 @@ func runC18(w *World, r *Report) {
 				}
 			})
 		}
+		// a generic constructor of handlers (newRequestHandler[Req, Resp]) names the models as type arguments
+		for _, n := range requestTypeArgs(w) {
+			models[n.Obj().Name()] = n
+		}
 		if len(models) < 8 {
 			r.Fail("C18-R3", "request model census", gri.Pos(), fmt.Sprintf("only %d request model types found (8 confirmed)", len(models)))
 		}
@@ -699,4 +703,35 @@ func c18StoredRecord(w *World, r *Report) {
 	if n == 0 {
 		r.Undecided("C18-R5", "task info stores", 0, "no json.Unmarshal into a TaskInfo found in the store Get methods")
 	}
+}
+
+// requestTypeArgs: request model types (package server/model/request) that appear as type arguments of generic
+// functions instantiated in the server package.
+func requestTypeArgs(w *World) []*types.Named {
+	seen := map[string]*types.Named{}
+	for _, fn := range w.RepoFuncs() {
+		if fn.Pkg == nil || fn.Pkg.Pkg.Path() != pkgServer {
+			continue
+		}
+		eachInstr(fn, func(in ssa.Instruction) {
+			ci, ok := in.(ssa.CallInstruction)
+			if !ok {
+				return
+			}
+			cal := ci.Common().StaticCallee()
+			if cal == nil {
+				return
+			}
+			for _, ta := range cal.TypeArgs() {
+				if n := namedOf(ta); n != nil && n.Obj().Pkg() != nil && n.Obj().Pkg().Path() == pkgRequest && strings.HasSuffix(n.Obj().Name(), "Request") {
+					seen[n.Obj().Name()] = n
+				}
+			}
+		})
+	}
+	var out []*types.Named
+	for _, k := range sortedKeys(seen) {
+		out = append(out, seen[k])
+	}
+	return out
 }
